@@ -225,6 +225,19 @@ func init() {
 				}
 				return
 			}
+			var cm struct {
+				R      bool `json:"caller_map_reuse"`
+				Cached bool `json:"cached"`
+				PT     bool `json:"parent_tagged"`
+				San    bool `json:"sanitizer"`
+			}
+			if json.Unmarshal(ctx.Replay, &cm) == nil && cm.R {
+				ctx.Case(cm, "", "caller-map-reused-after-tagged", "")
+				if f := callerMapReuse(1, cm.Cached, cm.PT, cm.San); f != "" {
+					ctx.Fail("delivered_values_are_updates_and_fresh", f, cm, nil)
+				}
+				return
+			}
 			var st struct {
 				Kind   string `json:"stalled_delivery"`
 				Cached bool   `json:"cached"`
@@ -348,6 +361,15 @@ func init() {
 			cs := map[string]interface{}{"stale_handles": true, "cached": k%2 == 1, "rounds": 40}
 			ctx.Case(cs, "", "updates-through-handles-of-dropped-scopes", "")
 			if f := c02Stale(k%2 == 1, 40); f != "" {
+				ctx.Fail("delivered_values_are_updates_and_fresh", f, cs, nil)
+			}
+		}
+		// the caller re-uses the map it handed to Tagged: every gauge is delivered under the tags its
+		// scope was derived with
+		for k := 0; k < 8; k++ {
+			cs := map[string]interface{}{"caller_map_reuse": true, "cached": k&1 == 1, "parent_tagged": k&2 == 2, "sanitizer": k&4 == 4}
+			ctx.Case(cs, "", "caller-map-reused-after-tagged", "")
+			if f := callerMapReuse(1, k&1 == 1, k&2 == 2, k&4 == 4); f != "" {
 				ctx.Fail("delivered_values_are_updates_and_fresh", f, cs, nil)
 			}
 		}
